@@ -54,6 +54,9 @@ def run(ck, ctx):
                       "`some other type` edge to the return answers the WRONGTYPE error and nothing else (Redis answers WRONGTYPE for every "
                       "typed command against a key of another type; an empty/zero/nil answer there hides the key). Re-lookups behind a "
                       "deciding type test of the same key, TYPE-style total matches and MGET (nil by Redis semantics) are the only exceptions")
+    ck.rule("R01.16", "LMOVE's two ends: in the LMOVE handler every call that takes an element out of a stored list is decided by (control- or "
+                      "data-dependent on) `wherefrom`, every call that puts one in by `whereto`, and a list mutator that does both by both - also on "
+                      "a same-key shortcut (LMOVE k k LEFT LEFT must leave the list as it is, LEFT RIGHT rotates it)")
     ck.rule("R01.14", "a score is replaced unless it is exactly the stored one: in the sorted set's add path the only branch that leaves an "
                       "existing member's stored score in place is decided by exact equality of the stored and the incoming f64 (Redis compares "
                       "scores exactly; a tolerance such as |a-b| < EPSILON keeps 1e-20 when ZADD asks for 2e-20)")
@@ -68,6 +71,7 @@ def run(ck, ctx):
         _r0113(ck, prog, cfg, effects.executor_methods(prog))
         _r0114(ck, prog, cfg)
         _r0115(ck, prog, cfg)
+        _r0116(ck, prog, cfg)
         meths = effects.executor_methods(prog)
         _r011(ck, prog, cfg, meths)
         _r012(ck, prog, cfg, meths)
@@ -1135,3 +1139,76 @@ def _r0115(ck, prog, cfg):
              % ", ".join("%s in %s" % (callee(t).rsplit("::", 1)[-1], g.short) for g, t in bad[:3]),
              bad[0][0].where(bad[0][1]["ln"]) if bad else None, detail="no total_cmp/to_bits in skiplist.rs / sorted_set.rs")
     ck.floor("R01.15" + _tag(cfg), n, 3)
+
+
+# ------------------------------------------------------------------------------------------------
+def _tainted_locals(f, seeds):
+    """locals whose value derives from the seed locals (flow-insensitive forward closure over assignments and call results)"""
+    t = set(seeds)
+
+    def mentions(node):
+        if isinstance(node, dict):
+            if "l" in node and isinstance(node["l"], int) and node["l"] in t:
+                return True
+            return any(mentions(v) for v in node.values())
+        if isinstance(node, list):
+            return any(mentions(v) for v in node)
+        return False
+    ch = True
+    while ch:
+        ch = False
+        for b, i, st in f.stmts():
+            l = st["lhs"].get("l")
+            if l not in t and mentions(st["rv"]):
+                t.add(l)
+                ch = True
+        for b, tm in f.calls():
+            d = tm.get("dest")
+            if d is not None and d.get("l") not in t and mentions(tm.get("args")):
+                t.add(d["l"])
+                ch = True
+    return t
+
+
+def _r0116(ck, prog, cfg):
+    hs = [f for f in prog.lib_fns() if f.impl_self == EXEC and f.kind == "method"
+          and {"wherefrom", "whereto"} <= {x["n"] for x in f.names if not x["pl"].get("p") and x["pl"]["l"] <= f.d["argc"]}]
+    if not hs:
+        ck.anchor_lost("R01.16", "no executor method with `wherefrom`/`whereto` parameters (the LMOVE handler) found")
+        return
+    n = 0
+    for f in hs:
+        pl_ = {x["n"]: x["pl"]["l"] for x in f.names if not x["pl"].get("p") and x["pl"]["l"] <= f.d["argc"]}
+        dep = {"wherefrom": _tainted_locals(f, {pl_["wherefrom"]}), "whereto": _tainted_locals(f, {pl_["whereto"]})}
+        k = 0
+        for b, t in f.calls():
+            c = callee(t) or ""
+            if not c.startswith("redis::data::list::RedisList::"):
+                continue
+            g = prog.fns.get(c)
+            if g is None or not g.locals[1:2] or not g.locals[1].startswith("&mut "):
+                continue
+            # what the mutator does to the element sequence, read from its body
+            inner = [callee(t2) or "" for g2 in prog.with_children(g) for _, t2 in g2.calls()]
+            adds = any(re.search(r"VecDeque::<.*>::(push_front|push_back|insert|extend|append|rotate_left|rotate_right|swap|resize)\b|RedisList::(lpush|rpush|insert)$", x) for x in inner)
+            removes = any(re.search(r"VecDeque::<.*>::(pop_front|pop_back|remove|truncate|drain|clear|split_off|retain|rotate_left|rotate_right|swap)\b|RedisList::(lpop|rpop|remove|trim)$", x) for x in inner)
+            if not adds and not removes:
+                continue
+            need = [x for x, on in (("wherefrom", removes), ("whereto", adds)) if on]
+            n += 1
+            missing = []
+            for par in need:
+                ctl = False
+                for sb, _ in lib2.controlling_switches(f, b):
+                    d = op_local(f.term(sb)["d"])
+                    if d in dep[par]:
+                        ctl = True
+                data = any(op_local(a) in dep[par] for a in t["args"][1:] if op_local(a) is not None)
+                if not (ctl or data):
+                    missing.append(par)
+            ck.check(not missing, "R01.16", "%s:%s#%d%s" % (f.short, c.rsplit("::", 1)[-1], k, _tag(cfg)),
+                     "the list mutator %s in the LMOVE handler does not depend on %s: the end it works on is fixed or chosen by the other argument, "
+                     "so some (wherefrom, whereto) combination moves the element to/from the wrong end" % (c.rsplit("::", 1)[-1], " and ".join(missing)),
+                     f.where(t["ln"]), detail="depends on " + "+".join(need))
+            k += 1
+    ck.floor("R01.16" + _tag(cfg), n, 4)
